@@ -167,6 +167,9 @@ def total_stage(tier_, key):
             for v in variants:
                 add(v, "random", n=400 if q else 4000, maxlen=4096)
                 add(v, "seeds", n=300 if q else 3000)
+            # value-directed inputs: tiny programs whose first value opcode receives boundary bit patterns
+            for ms in ([[m] for m in corpus.MUTS[:6]] + [allm]) if (not q or P in (0, 2, 5)) else [["offbyone"], ["bitflip"], allm]:
+                add(corpus.cfg(P, 1, 2, muts=ms, rate=1.0, ext=True, buf=True), "shaped")
             add(corpus.cfg(P, 20000, 20001) if q else corpus.cfg(P, 50000, 50001), "seeds", n=1)
             add(corpus.cfg(P, 5000, 9000, muts=allm, rate=1.0, unsafe=True), "random", n=2, maxlen=60000)
         spec = {"batches": batches, "timeout_s": 600 if q else 3000, "parallel": CORES - 2}
